@@ -77,3 +77,9 @@ class Md6(Case):
 
 
 register(Md6())
+
+
+# ---- lemmas for the stubs this check relies on (see props.common.Borrowed) ----
+from props.common import Borrowed, REGISTRY
+from props import c01 as _c01
+register(Borrowed(REGISTRY['C01.reverse_byte'], 'C17', 'reverse_byte'))
